@@ -327,6 +327,18 @@ type ReplayFile struct {
 	// EnumIndex: for scenarios that enumerate a space by run index, the index this run had
 	// (it depends on the number of workers of the search, which a replay does not know)
 	EnumIndex *uint64 `json:"enum_index,omitempty"`
+	// History: where this run sat in its worker's sequence of runs. A violation that does not
+	// reproduce from its own tape in a fresh process but does after the worker's earlier runs
+	// (regenerated from the seed) depends on state the library keeps in process-wide variables;
+	// the driver then sets NeedsHistory and every replay re-executes those runs first.
+	History      *ReplayHistory `json:"history,omitempty"`
+	NeedsHistory bool           `json:"needs_history,omitempty"`
+}
+
+type ReplayHistory struct {
+	RunStart uint64 `json:"run_start"`
+	NWorkers int    `json:"nworkers"`
+	Scenario string `json:"scenario_filter,omitempty"`
 }
 
 // enumIndexOverride, when set, replaces the computed enumeration index (replays).
